@@ -7,16 +7,18 @@ import os
 import vp
 
 
-def judge(chk, wd, prop):
-    drv = vp.build("abort_driver", ["abort_driver.cpp"], [], "-O1")
-    tpath = os.path.join(wd, "abort_%s.ndjson" % prop)
+def judge(chk, wd, prop, driver="abort_driver"):
+    """driver: abort_driver (default failure configuration) or nocc_driver (RLBOX_NO_COMPILE_CHECKS without
+    exceptions: what the default build refuses to compile must end the process)"""
+    drv = vp.build(driver, [driver + ".cpp"], [], "-O1")
+    tpath = os.path.join(wd, "%s_%s.ndjson" % (driver, prop))
     p = vp.run(["timeout", "120", drv, tpath, prop], timeout=200)
-    vp.exit_ok(p, "abort_driver")
+    vp.exit_ok(p, driver)
     events = vp.read_ndjson(tpath)
     if p.returncode == 0 and len(events) < 3:
-        raise vp.Broken("abort_driver recorded %d probes for %s" % (len(events), prop))
-    r = vp.tlc(os.path.join(vp.SPEC, "Trace_Abort.tla"), os.path.join(vp.SPEC, "Trace_Abort.cfg"), name="Trace_Abort_" + prop,
-               workers=1, timeout=300, env={"TRACE": tpath})
+        raise vp.Broken("%s recorded %d probes for %s" % (driver, len(events), prop))
+    r = vp.tlc(os.path.join(vp.SPEC, "Trace_Abort.tla"), os.path.join(vp.SPEC, "Trace_Abort.cfg"),
+               name="Trace_Abort_%s_%s" % (driver, prop), workers=1, timeout=300, env={"TRACE": tpath})
     res = r.printed("RESULT")
     if len(res) != 1 or res[0]["n"] != len(events):
         raise vp.Broken("Trace_Abort did not complete: " + r.out[-1500:])
@@ -24,8 +26,9 @@ def judge(chk, wd, prop):
                 "child each" % len(events))
     for b in res[0]["bad"]:
         ev = events[b - 1]
-        chk.violation("[default failure configuration: neither exceptions nor a custom abort handler] %s: the child ended with "
+        chk.violation(("[default failure configuration: neither exceptions nor a custom abort handler] " if driver == "abort_driver" else
+                       "[RLBOX_NO_COMPILE_CHECKS without exceptions: compile-time rejections end the process] ") + "%s: the child ended with "
                       "'%s' where the Contract of %s says %s" % (ev["what"], ev["outcome"], prop,
                                                                 "the operation aborts" if ev["expect"] == "abort" else "it succeeds"), ev)
-    chk.cov["default_abort_configuration_probes"] = len(events)
+    chk.cov["default_abort_configuration_probes" if driver == "abort_driver" else "no_compile_checks_probes"] = len(events)
     return len(events)
